@@ -101,7 +101,36 @@ CLAIM = {
             'on the child; the model says a copy is the same value) + oracle (child = parent, independent both ways, '
             'round trip of the child). R14 counts (applies): 300 receive antennas (MRC), 257 transmit antennas (MRT), '
             '258 x 2 (Alamouti, 300 code words), 258 x 3 (Blast), in thorough also SVD / GMD 257 x 3 and a '
-            '65537-antenna MRC: correspondence (<= 300) + oracles; the theorems have no size bound.',
+            '65537-antenna MRC: correspondence (<= 300) + oracles; the theorems have no size bound. R15 close-but-distinct '
+            'values (applies: `noise_var > 0` decides MMSE / ZF, `>= 0.0` guards, gmd compares singular values with their '
+            'geometric mean and counts `S >= tol`, SVD divides by S, both setters): theorems '
+            'setter_takes_effect_for_every_new_value, channel_setter_takes_effect_for_every_new_value, '
+            'close_channels_give_distinct_objects (no tolerance anywhere in the model: the stored value is the value handed '
+            'over), filter_decision_is_exact (every positive noise variance, however small, selects what solve returned for '
+            'that very value), mmse_filter_separates_noise_variances (two different noise variances never share an MMSE '
+            'filter for a non-zero channel) and zf_filter_is_not_an_mmse_filter (a negligible noise variance is not zero); '
+            'oracle `close` on ONE object per scheme: noise variances 4e-12 / 4e-13 / 2e-15 / 0 with a channel of path-loss '
+            'scale, 1e-9 vs 1.0000001e-9, relative 1e-6, 2.4e9 vs 2.4e9 + 2e4, adjacent doubles, beyond the 12th decimal; '
+            'channels below 1e-8 (all `allclose` to each other), differing by 8e-6 relative, by one ulp, by 1e-13; singular '
+            'values 1 + 2e-7 / 1 / 1 - 3e-7, two clusters, tiny, adjacent (gmd function, SVD and GMD schemes): each value gives '
+            'the defining equation of the filter decode() applies / the SINR of its definition / the round trip / the gmd '
+            'contract for THAT value, and is read back bit for bit; the same sequences as histories in the correspondence, '
+            'where read-back of channel and noise variance is now compared exactly and the kernel called (solve vs pinv) must '
+            'be the one the exact test selects. R16 argument identity and buffer reuse (applies): Model/C04Buf.lean models the '
+            'caller with ONE preallocated channel array against the code as it is (set_channel_matrix keeps the array object) '
+            'and against value semantics; theorems refilled_buffer_equals_fresh_object (handing the array over again after '
+            'every refill makes the two indistinguishable), last_handed_over_contents_win, and the negative witness '
+            'channel_kept_by_reference_fails; correspondence: random caller programs (refill / set(buf) / set(fresh) / '
+            'observe through decode) on real objects vs both machines (driver op `buf`), and seeded + Monte Carlo loop '
+            'histories whose every array reaches the object through ONE refilled buffer per role; oracle `reuse`: 2-4 rounds '
+            'on one object driven ALONE (an identity-keyed memo is not refreshed by the reference computation), references '
+            'from fresh objects afterwards, earlier results / buffers unchanged, no result aliasing a buffer; static and '
+            'module functions (ZF / MMSE filter, SINR functions, gmd) with refilled arguments; one array in two roles (channel '
+            '= transmit data, = received data, encoded block as received data, channel = precoder = filter, U = V^H of gmd); '
+            'argument modified right after the call. KNOWN FINDING (genuine, not repaired in this round): '
+            'set_channel_matrix / the constructors keep the caller\'s array, so refilling it without handing it over again '
+            'changes the object (C04:set_channel_matrix:keeps-the-callers-array; one-line repair np.array(channel); a library '
+            'that copies is accepted by the buffer correspondence as value semantics).',
 }
 
 RTOL = 1e-9
@@ -556,6 +585,30 @@ def o_gmd(case):
 
 
 # ---- object histories: one object, several reconfigurations (real code only) -------------
+_BUF = {}
+
+
+def reuse_buffer(role, a):
+    """R16: the caller keeps ONE preallocated array per role (channel / transmit data / received data) and shape
+    and refills it in place before every call; what a call does must depend on the contents handed over, not on
+    the identity of the array object"""
+    a = np.asarray(a)
+    key = (role, a.shape, a.dtype.str)
+    b = _BUF.get(key)
+    if b is None:
+        b = _BUF[key] = np.empty(a.shape, dtype=a.dtype)
+    b[...] = a
+    return b
+
+
+def arg_wrap(case):
+    """how the arrays of a history reach the library: as they are, or (case['reuse'], R16) through refilled buffers"""
+    if case.get('reuse'):
+        _BUF.clear()
+        return reuse_buffer
+    return lambda role, a: a
+
+
 def hist_ops_from_case(case):
     out = []
     for op in case['ops']:
@@ -665,7 +718,8 @@ def o_history(case):
     scheme = case['scheme']
     kw = bool(case.get('kw'))
     H0 = dec(case['H0']) if case['H0'] is not None else None
-    obj = make(scheme, H0)
+    wrap = arg_wrap(case)
+    obj = make(scheme, wrap('H', H0) if H0 is not None else None)
     cur_arg, cur_nv = H0, 0.0
     last, since = ('construct' if H0 is not None else 'construct-without-channel'), set()
     fam = scheme in ('blast', 'mrc', 'svd', 'gmd')
@@ -692,7 +746,7 @@ def o_history(case):
             if k == 'sc':
                 ok = accepted(scheme, a)
                 try:
-                    call_m(obj, 'set_channel_matrix', a, kw)
+                    call_m(obj, 'set_channel_matrix', wrap('H', a), kw)
                     if not ok:
                         return 'history:%s:guard' % scheme, where + 'accepted a channel the scheme cannot use'
                     cur_arg = a
@@ -717,7 +771,7 @@ def o_history(case):
                         return 'R13:%s:%s' % (scheme, how), where + 'changed %s of the object it was derived from' % d
                 continue
             before = cfg_of(obj)
-            r = _observe_step(obj, scheme, k, a, cur_arg, cur_nv, cls, where, kw)
+            r = _observe_step(obj, scheme, k, a, cur_arg, cur_nv, cls, where, kw, wrap)
             if r is not None:
                 return r
             d = cfg_diff(before, cfg_of(obj))
@@ -727,8 +781,9 @@ def o_history(case):
     return None
 
 
-def _observe_step(obj, scheme, k, a, cur_arg, cur_nv, cls, where, kw):
-    """one non-mutating step of a history, compared with a fresh object of the current configuration"""
+def _observe_step(obj, scheme, k, a, cur_arg, cur_nv, cls, where, kw, wrap=lambda role, a: a):
+    """one non-mutating step of a history, compared with a fresh object of the current configuration (the fresh
+    object always gets arrays of its own; the object under test gets them through `wrap`, see arg_wrap)"""
     fam = scheme in ('blast', 'mrc', 'svd', 'gmd')
     f = fresh_like(scheme, cur_arg, cur_nv)
     if k == 'q':
@@ -745,7 +800,7 @@ def _observe_step(obj, scheme, k, a, cur_arg, cur_nv, cls, where, kw):
         return None
     if cur_arg is None:
         # no channel yet: the object must answer exactly like a fresh channel-less one
-        probe = {'rt': [lambda o: call_m(o, 'encode', a, kw), lambda o: call_m(o, 'decode', np.ones((1, 2), dtype=complex), kw)],
+        probe = {'rt': [lambda o: call_m(o, 'encode', np.array(a), kw), lambda o: call_m(o, 'decode', np.ones((1, 2), dtype=complex), kw)],
                  'flt': [lambda o: (o._calc_precoder(o._channel), recv_filter(o, 'omit' if a is None else a, kw))],
                  'sinr': [lambda o: call_m(o, 'calc_linear_SINRs', a, kw)]}[k]
         for fn in probe:
@@ -759,9 +814,9 @@ def _observe_step(obj, scheme, k, a, cur_arg, cur_nv, cls, where, kw):
     if k == 'rt':
         x = a
         try:
-            e, ef = call_m(obj, 'encode', x, kw), f.encode(x)
+            e, ef = call_m(obj, 'encode', wrap('x', x), kw), f.encode(x)
             y = H2 @ e
-            d, df = np.asarray(call_m(obj, 'decode', y, kw)), np.asarray(f.decode(y))
+            d, df = np.asarray(call_m(obj, 'decode', wrap('y', y), kw)), np.asarray(f.decode(y))
         except Exception as ex:
             return cls, where + 'raised %s: %s' % (type(ex).__name__, str(ex)[:150])
         ok, why = near(e, ef)
@@ -1575,6 +1630,14 @@ ORACLES = {'roundtrip': o_roundtrip, 'energy': o_energy, 'zf': o_zf, 'mmse': o_m
            'argforms': o_argforms, 'derived': o_derived, 'counts': o_counts}
 
 
+def _r1516():
+    """R15 / R16 live in the helper module harness/props/c04_r1516.py; its oracles are replayable like the others"""
+    from harness.props import c04_r1516
+    for k_, v_ in c04_r1516.ORACLES.items():
+        ORACLES.setdefault(k_, v_)
+    return c04_r1516
+
+
 def run_oracle(ctx, call, case, key=None, nontrivial=True):
     ctx.count((call, key if key is not None else repr(case)), nontrivial)
     try:
@@ -1590,6 +1653,7 @@ def run_oracle(ctx, call, case, key=None, nontrivial=True):
 
 
 def replay(ctx, rep):
+    _r1516()
     return ORACLES[rep['call']](rep['case']) is not None
 
 
@@ -2028,9 +2092,12 @@ def corr_history(ctx, b, case, ck):
     scheme = case['scheme']
     m = _mimo()
     H0 = dec(case['H0']) if case['H0'] is not None else None
-    st, obj = call_impl(lambda: make(scheme, H0))
+    wrap = arg_wrap(case)     # R16: every array reaches the real object through ONE refilled buffer per role
+    st, obj = call_impl(lambda: make(scheme, wrap('H', H0) if H0 is not None else None))
     toks, impl = [], []       # model op tokens; impl (name, status, arrays, scale)
     ctx.branch('hist:' + scheme)
+    if case.get('reuse'):
+        ctx.branch('R16:corr')
     if H0 is None:
         ctx.branch('R7:corr')
     if st != 'ok':
@@ -2080,7 +2147,7 @@ def corr_history(ctx, b, case, ck):
             ctx.branch('hist-op:cfg')
             continue
         if k == 'sc':
-            st, _ = call_impl(lambda: call_m(obj, 'set_channel_matrix', a, kw))
+            st, _ = call_impl(lambda: call_m(obj, 'set_channel_matrix', wrap('H', a), kw))
             toks.append('sc;' + chan_tok(a))
             impl.append(('set_channel', 'done' if st == 'ok' else st, None, None))
             read_channel()
@@ -2102,12 +2169,12 @@ def corr_history(ctx, b, case, ck):
         steps = []
         if k == 'rt':
             with Tap() as t:
-                e = call_impl(lambda: call_m(obj, 'encode', a, kw))
+                e = call_impl(lambda: call_m(obj, 'encode', wrap('x', a), kw))
             steps.append(('enc', t.log, e, 'enc;%d;%s' % (a.size, cline(a)), None, e[0] == 'ok', None))
             if e[0] == 'ok':
                 y = H2 @ e[1] if H2 is not None else np.ones((1, e[1].shape[1]), dtype=complex)
                 with Tap() as t:
-                    d = call_impl(lambda: call_m(obj, 'decode', y, kw))
+                    d = call_impl(lambda: call_m(obj, 'decode', wrap('y', y), kw))
                 steps.append(('dec', t.log, d, 'dec;%d;%d;%s' % (y.shape[0], y.shape[1], cline(y)), nv_obj, True, xscale(c, a)))
         elif k == 'flt':
             with Tap() as t:
@@ -2159,7 +2226,10 @@ def corr_history(ctx, b, case, ck):
                 sc = scale
                 if kind == 'flt':
                     sc = amax(va) * 4
-                ok, why = near(va, a_, 1e-7 if kind == 'sinr' else RTOL, scale=sc)
+                if kind in ('chan', 'noise_var'):   # what is read back is the value handed over, bit for bit (R15)
+                    ok, why = bool(va.shape == a_.shape and np.array_equal(va, a_)), 'the stored value is not the one handed over'
+                else:
+                    ok, why = near(va, a_, 1e-7 if kind == 'sinr' else RTOL, scale=sc)
                 good = good and ok
                 if not ok:
                     break
@@ -2795,6 +2865,7 @@ def run_corpus(ctx):
     for fn in sorted(glob.glob(os.path.join(core.VERIF, 'corpus', 'c04', '*.json'))):
         with open(fn) as f:
             rep = json.load(f)
+        _r1516()
         if rep.get('call') in ORACLES:
             run_oracle(ctx, rep['call'], rep['case'], key=('corpus', os.path.basename(fn)))
             ctx.branch('corpus')
@@ -2821,13 +2892,14 @@ def check(ctx):
                              'entry:oracle', 'entry:corr', 'entry:ctor:vector', 'entry:setter:vector', 'entry:replace:vector',
                              'entry:ctor:matrix', 'hist-op:chan', 'R1:oracle', 'R1:corr', 'R2:oracle', 'R2:corr', 'R3:oracle', 'R3:corr', 'R4:oracle', 'R4:corr',
                              'R5:oracle', 'R5:corr', 'R6:oracle', 'R6:corr', 'R7:oracle', 'R7:corr', 'hist-op:set_noise_var:ok', 'hist-op:set_channel:ok', 'hist-op:set_channel:rejected', 'hist-op:dec',
-                             'contract-ok:pinv', 'contract-ok:solve', 'contract-ok:svd', 'contract-ok:gmd']
+                             'contract-ok:pinv', 'contract-ok:solve', 'contract-ok:svd', 'contract-ok:gmd'] + _r1516().REQUIRED
     sections = [('small_scope', lambda: small_scope(ctx)),
                 ('entry_paths', lambda: entry_paths(ctx, Gen(ctx.rng.fork('entry')), 2 if quick else 12, max_n)),
                 ('correspondence', lambda: correspondence(ctx, g, 15 if quick else 150, max_n)),
                 ('histories', lambda: histories(ctx, Gen(ctx.rng.fork('hist')), 25 if quick else 100, max_n)),
                 ('robustness', lambda: robustness(ctx, Gen(ctx.rng.fork('robust')), 12 if quick else 70, max_n)),
                 ('robustness2', lambda: robustness2(ctx, Gen(ctx.rng.fork('robust2')), 4 if quick else 40, max_n)),
+                ('robustness3', lambda: _r1516().run(ctx, Gen(ctx.rng.fork('robust3')), max_n)),
                 ('oracle_cases', lambda: oracle_cases(ctx, Gen(ctx.rng.fork('oracle')), 10 if quick else 100, max_n))]
     for name, fn in sections:
         try:
